@@ -243,3 +243,10 @@ Theorem C19_init_segment_oversize_dimensions : forall c,
   failed_C19_init (fc_width c) (fc_height c) (fc_timescale c) (init_segment_of (fmuxer_new c)) = [3; 9].
 Proof. exact init_segment_oversize_dimensions. Qed.
 Print Assumptions C19_init_segment_oversize_dimensions.
+
+From Muxide Require Export Model.Frag Model.Defaults Spec.HeaderChecks Proofs.InitHeaderProofs Proofs.DefaultsProofs.
+(* the init segment of `FragmentConfig::default()` satisfies every header clause *)
+Theorem C19_default_init_segment_conforms :
+  failed_C19_init 1920 1080 90000 (init_segment_of (fmuxer_new frag_config_default)) = [].
+Proof. exact default_init_segment_conforms. Qed.
+Print Assumptions C19_default_init_segment_conforms.
